@@ -26,7 +26,7 @@ fn fault(rng: &mut Rng, t: &mut Vec<i64>) {
         6 if !lastdigits.is_empty() => { // index pushed far out of range (either way)
             let i = *rng.pick(&lastdigits);
             t.remove(i);
-            let v: i64 = *rng.pick(&[1i64 << 32, -(1i64 << 32), 1 << 31, -(1 << 31), (1 << 32) + 1, 1 << 40, 5, -5, 70000, -70000]);
+            let v: i64 = *rng.pick(&[1i64 << 32, -(1i64 << 32), 1 << 31, -(1 << 31), (1 << 32) + 1, 1 << 40, 5, -5, 70000, -70000, 1, 2, 3, 4, -1, -2, -3]);
             for (k, d) in crate::c11::generate_own(&[v]).into_iter().enumerate() { t.insert(i + k, d); }
         }
         7 if !lastdigits.is_empty() => { let i = *rng.pick(&lastdigits); t[i] = (t[i] + 2) % 32; } // small delta change
@@ -51,12 +51,50 @@ fn fault(rng: &mut Rng, t: &mut Vec<i64>) {
     }
 }
 
+/// number of mappings texts in a document (its own, or those of its sections' maps, recursively)
+fn count_texts(d: &Value) -> usize {
+    let own = d.get("mappings").and_then(|m| m.as_array()).map_or(0, |a| a.len().min(1));
+    let secs = d.get("sections").and_then(|s| s.as_array()).and_then(|a| a.first()).and_then(|l| l.as_array())
+        .map_or(0, |l| l.iter().map(|s| s.get("map").and_then(|m| m.as_array()).and_then(|a| a.first()).map_or(0, count_texts)).sum());
+    own + secs
+}
+/// damage the k-th mappings text of the document (same traversal order as count_texts)
+fn damage(rng: &mut Rng, d: &mut Value, k: &mut usize, nf: u64) {
+    if d.get("mappings").and_then(|m| m.as_array()).map_or(false, |a| !a.is_empty()) {
+        if *k == 0 {
+            let mut t: Vec<i64> = d["mappings"][0].as_array().unwrap().iter().map(|x| x.as_i64().unwrap()).collect();
+            for _ in 0..nf { fault(rng, &mut t); }
+            d["mappings"] = json!([t]);
+            *k = usize::MAX;
+            return;
+        }
+        *k -= 1;
+    }
+    if let Some(l) = d.get_mut("sections").and_then(|s| s.as_array_mut()).and_then(|a| a.first_mut()).and_then(|l| l.as_array_mut()) {
+        for s in l.iter_mut() {
+            if *k == usize::MAX { return; }
+            if let Some(m) = s.get_mut("map").and_then(|m| m.as_array_mut()).and_then(|a| a.first_mut()) { damage(rng, m, k, nf); }
+        }
+    }
+}
+
 pub fn gen(rng: &mut Rng, size: usize) -> Value {
+    // the damaged text stands in every kind of document: a minimal one, a random flat / Hermes document (any key
+    // order, tables of any length), or a section of a (nested) index, with or without a url next to the map
+    let nf = 1 + rng.below(2);
+    if rng.chance(1, 2) {
+        let mut d = if rng.chance(1, 2) { crate::c02::gen_index_doc(rng, size, 2) } else { let h = rng.chance(1, 4); crate::c02::gen_flat_doc(rng, size, h) };
+        let n = count_texts(&d);
+        if n > 0 {
+            let mut k = rng.below(n as u64) as usize;
+            damage(rng, &mut d, &mut k, nf);
+            return json!({"doc": d});
+        }
+    }
     let nsrc = rng.below(3);
     let nnm = rng.below(3);
     let nseg = if rng.chance(1, 12) { 100 + rng.below(250) as usize } else { 1 + rng.below((size * 6) as u64) as usize };
     let mut text = gen_mappings(rng, nseg, nsrc, nnm, false);
-    let nf = 1 + rng.below(2);
     for _ in 0..nf {
         fault(rng, &mut text);
     }
